@@ -32,7 +32,9 @@ WRITER_SRC = dict(driver="writer", model="RtpsWriter.tla", trace_module="Trace_R
 READER_SRC = dict(driver="reader", model="RtpsReader.tla", trace_module="Trace_RtpsReader.tla", trace_cfg="Trace_RtpsReader.cfg",
                   tiers={"quick": dict(mc=[], random=dict(runs=240, events=200)),
                          "thorough": dict(mc=[], random=dict(runs=3000, events=400))})
-DELIVERY_CLAUSES = ("C03_lowest_missing_not_requested",)
+# ... and so does, from the writer source, "a GAP declared a sample irrelevant that the reader is owed" (whether the system
+# driver sees the sample go missing depends on whether the GAP overtakes it, i.e. on thread timing)
+DELIVERY_CLAUSES = ("C03_lowest_missing_not_requested", "C04_gap_for_available_sample")
 
 
 def run(pid, tier, seed, replay=None):
